@@ -6,7 +6,7 @@ from sa.astutil import (norm, guards_of, walk_no_nested, always_exits, parent, e
                         names_in, qualname, subst, Guard)
 from sa.c18_util import BV, SB, SymMem, MemView, int_from_bytes, Interp, Closure, strip_doc, decorators, copy_expr
 from sa.errors import AnalysisError
-from sa.minieval import Raised
+from sa.minieval import Raised, Obj
 from sa.report import RuleResult
 
 PID = 'C18'
@@ -33,7 +33,8 @@ EXPLANATION = (
     "every READ/WRITE/AMO_* code is routed (tests evaluated per code) to a branch "
     "performing exactly the matching memory call with (addr, decoded length, data[0:8*len]) and the length decode is "
     "len or data_nbits/8 when len==0 (evaluated for every len value at data widths 16..128 incl. 24/40/96, field widths taken "
-    "from MemMsg.py); conditions guarding the type dispatch (e.g. an address "
+    "from MemMsg.py, for both ports of a two-port memory with different data widths and -- as mk_mem_msg produces -- equal class "
+    "names, with construct-level tables bound, so a per-port quantity looked up by class name is caught); conditions guarding the type dispatch (e.g. an address "
     "range check) are part of the routing: every in-range access (first bytes, ending one before / exactly at the end of the "
     "memory) is served by its branch in BOTH memories. "
     "R-C18-echo: every response constructor passes the request's type_ and opaque (mapped through the MemRespMsg field "
@@ -48,7 +49,8 @@ EXPLANATION = (
     "inverses; read_mem hands out a copy, never a live view (byte loops, slice assignment, int.to_bytes/from_bytes and memoryview(...).cast() "
     "word views are modelled); a helper that only accepts data of exactly nbytes bytes is accepted iff every caller slices "
     "the data to its low bytes (helper and callers are judged together, also by R-C18-dispatch); "
-    "read_mem/write_mem address exactly [addr, addr+size). "
+    "read_mem/write_mem address exactly [addr, addr+size) and write_mem stores EVERY byte of the image (zero bytes included; "
+    "slice assignment and enumerate / index loops are evaluated). "
     "R-C18-read-pure: MagicMemoryFL's methods are evaluated on an abstract instance (instance attributes = abstract state, "
     "byte array = versioned opaque image) after every history of <= 2 reads/writes/AMOs/write_mem: read(addr, nbytes) returns "
     "the current bytes [addr, addr+nbytes) and does not modify the image, i.e. it does not depend on state left by earlier calls. "
@@ -199,7 +201,7 @@ def rule_layout(repo):
                 r.ok(mm, maker, f'len : {norm(la)}')
         else:
             raise AnalysisError(f"{maker}: len annotation outside the understood shapes: {norm(la)}")
-    r.require_floor(20)
+    r.require_floor(24)
     return r
 
 
@@ -361,7 +363,7 @@ def rule_amo_table(repo):
             r.bad(fm, q, cons, problems[key], f.lineno)
         else:
             r.ok(fm, q, cons)
-    r.require_floor(12)
+    r.require_floor(17)
     return r
 
 
@@ -616,13 +618,30 @@ def _len_width(c, D):
     return cache[('lenw', D)]
 
 
-def _len_eval(c, pre, expr, D, lv, tval=None, types=None, addr=0):
+def _port_classes(c, D, port):
+    """abstract (request classes, response classes) of a two-port memory whose port `port` carries D-bit data and whose other
+    port carries 2*D-bit data; the class names are those mk_mem_req_msg / mk_mem_resp_msg give their classes (the same name
+    for every width -- taken from MemMsg.py)"""
+    names = []
+    for maker in ('mk_mem_req_msg', 'mk_mem_resp_msg'):
+        names.append(_msg_fields(c.repo, maker)[2].name)
+    widths = [D, 2 * D] if port == 0 else [2 * D, D]
+    return ([Obj('reqcls', __name__=names[0], data_nbits=w) for w in widths],
+            [Obj('respcls', __name__=names[1], data_nbits=w) for w in widths])
+
+
+def _len_eval(c, pre, expr, D, lv, tval=None, types=None, addr=0, port=0):
     """value of `expr` after the length-decoding statements `pre`, for req.len == lv and data width D (and, when given,
-    req.type_ == tval, req.addr == addr)"""
+    req.type_ == tval, req.addr == addr), evaluated for port `port` of a two-port memory whose other port is 2*D bits wide"""
     lenw = _len_width(c, D)
+    reqcls, respcls = _port_classes(c, D, port)
 
     def leaf(e):
+        if isinstance(e, ast.Call) and norm(e.func) == 'type' and len(e.args) == 1 and norm(e.args[0]) == c.req:
+            return reqcls[port]
         if isinstance(e, ast.Attribute):
+            if e.attr == '__class__' and norm(e.value) == c.req:
+                return reqcls[port]
             if types is not None and isinstance(e.value, ast.Name) and e.value.id == 'MemMsgType':
                 if e.attr not in types:
                     raise AnalysisError(f"unknown MemMsgType.{e.attr}")
@@ -648,6 +667,12 @@ def _len_eval(c, pre, expr, D, lv, tval=None, types=None, addr=0):
             need |= {n.id for n in ast.walk(st) if isinstance(n, ast.Name) and isinstance(n.ctx, ast.Load)}
     pre = list(reversed(keep))
     it = Interp(_param_defaults(c), funcs=BASE_FUNCS, leaf=leaf)
+    it.env[c.i] = port
+    for st in c.con.body:       # the per-port class lists built from the (request class, response class) pairs
+        if isinstance(st, ast.Assign) and len(st.targets) == 1 and isinstance(st.targets[0], ast.Name):
+            pos = _pair_pos(c, st.targets[0])
+            if pos is not None:
+                it.env[st.targets[0].id] = (reqcls, respcls)[pos]
     # closure variables of the update block: resolve them from the enclosing construct()
     try:
         cons_f = c.m.get_func(c.q.split('.')[0] + '.construct')
@@ -656,7 +681,7 @@ def _len_eval(c, pre, expr, D, lv, tval=None, types=None, addr=0):
     if cons_f is not None:
         assigned = {n.id for st in pre for n in ast.walk(st) if isinstance(n, ast.Name) and isinstance(n.ctx, ast.Store)}
         used = {n.id for st in list(pre) + [expr] for n in ast.walk(st) if isinstance(n, ast.Name) and isinstance(n.ctx, ast.Load)}
-        for nm in sorted(used - assigned):
+        for nm in sorted(used - assigned - set(it.env)):
             defs = [st for st in cons_f.body if isinstance(st, ast.Assign) and len(st.targets) == 1 and norm(st.targets[0]) == nm]
             if len(defs) == 1:
                 try:
@@ -808,15 +833,23 @@ def rule_dispatch(repo):
                     if norm(_strip_int(a)) != f'{c.req}.type_':
                         problems.append(f"operation argument is {norm(a)}, must be {c.req}.type_")
                 elif role == 'n':
-                    for D in DATA_WIDTHS:
+                    # evaluated for both ports of a two-port memory whose ports carry DIFFERENT data widths (D and 2*D) but
+                    # whose message classes have the same name: a per-port quantity must be found through the port
+                    for D, port in itertools.product(DATA_WIDTHS, (0, 1)):
                         for lv in range(D >> 3):
                             r.evaluations += 1
-                            got = _len_eval(c, pre, a, D, lv)
+                            got = _len_eval(c, pre, a, D, lv, port=port)
                             exp = lv if lv else D >> 3
                             if isinstance(got, BV):
                                 got = got.u
                             if got != exp:
-                                problems.append(f"byte count is {got} for len={lv} with {D}-bit data, must be {exp}")
+                                other = ''
+                                if got == (2 * D) >> 3 and not lv:
+                                    other = (f" -- this is the full width of the OTHER port ({2 * D} bits): a per-port quantity is "
+                                             f"looked up through something that is not unique per port (all request classes are "
+                                             f"named {_port_classes(c, D, port)[0][0].fields['__name__']}; use the port index)")
+                                problems.append(f"byte count is {got} for len={lv} on port {port} with {D}-bit data, must be {exp}"
+                                                + other)
                                 break
                         else:
                             continue
@@ -897,7 +930,7 @@ def rule_dispatch(repo):
             r.bad(fm, q, cons, bad + f" -- address / byte count / data must reach {helper} unchanged", f.lineno)
         else:
             r.ok(fm, q, cons)
-    r.require_floor(26)
+    r.require_floor(40)
     return r
 
 
@@ -1011,8 +1044,7 @@ def rule_echo(repo):
             fa = {k2: _deref(v2, defs) for k2, v2 in fa.items()}
             here = routed.get(k, [])
             if not here:
-                r.ok(c.m, c.q, cons, nontrivial=False, note='branch unreachable for every named type code')
-                continue
+                continue              # answers no message code (e.g. an out-of-range acknowledge): nothing to echo-check
             problems = []
             for name, code in here:
                 r.evaluations += 1
@@ -1053,8 +1085,9 @@ def rule_echo(repo):
             if problems:
                 r.bad(c.m, c.q, cons, '; '.join(problems), st.lineno)
             else:
-                r.ok(c.m, c.q, cons)
-    r.require_floor(8)
+                for name, code in sorted(here, key=lambda x: x[1]):      # one obligation per answered message code
+                    r.ok(c.m, c.q, f'{name}: {cons}')
+    r.require_floor(26)
     return r
 
 
@@ -1355,7 +1388,7 @@ def rule_pairing(repo):
                         r.bad(c.m, cq, f'for {var[0]} in {norm(var[1].iter)}', "the wiring loop does not cover every port", var[1].lineno)
         if len(c.sinks) == 1:
             _check_wiring(c, conts, edges, r, cq)
-    r.require_floor(22)
+    r.require_floor(32)
     return r
 
 
@@ -1588,12 +1621,30 @@ class ImgMem(SymMem):
         return lo, hi
 
     def load(self, idx):
+        if not isinstance(idx, slice):
+            return ('image byte', int(idx))
         lo, hi = self._bounds(idx)
         return ('image', lo, hi)
 
     def store(self, idx, value):
+        if not isinstance(idx, slice):
+            a = int(idx)
+            if not 0 <= a < self.size:
+                raise Raised(f"IndexError: byte {a} of the backing bytearray")
+            self.writes.append((a, a + 1, [value]))
+            return
         lo, hi = self._bounds(idx)
         self.writes.append((lo, hi, value))
+
+    def image(self):
+        """address -> value of every byte written (later writes win); None if some slice store has no per-byte value"""
+        out = {}
+        for lo, hi, val in self.writes:
+            if hi is None or not isinstance(val, (list, tuple)) or len(val) != hi - lo:
+                return None
+            for k in range(hi - lo):
+                out[lo + k] = val[k]
+        return out
 
 
 _READ_PROBE = """
@@ -1845,7 +1896,7 @@ def rule_endian(repo):
         bad = alias = None
         for a, z in itertools.product((0, 1, 7), (0, 1, 5)):
             img = ImgMem()
-            data = [('byte', k) for k in range(z)]
+            data = [7, 0, 9, 0, 5][:z]            # a program image with zero bytes in it (they must be stored like any other)
             it = FnInterp({f'{me}.{store_attr}': img}, funcs=dict(BASE_FUNCS, len=len, memoryview=ImgView, bytes=_img_copy,
                                                                   bytearray=_img_copy))
             try:
@@ -1862,9 +1913,17 @@ def rule_endian(repo):
                             f"a write processed later changes an image that was already returned"
                     break
             else:
-                ok = err is None and img.writes == [(a, a + z, data)]
-                seen = f"writes {[(lo, hi) for lo, hi, _ in img.writes]}" + \
-                       ('' if all(v is data or v == data for _, _, v in img.writes) else ' with other data')
+                got_img = img.image()
+                want_img = {a + k: data[k] for k in range(z)}
+                ok = err is None and got_img == want_img
+                if got_img is None:
+                    seen = f"writes {[(lo, hi) for lo, hi, _ in img.writes]} with data of another length"
+                else:
+                    missing = sorted(set(want_img) - set(got_img))
+                    wrong = sorted(k for k in got_img if k not in want_img or got_img[k] != want_img.get(k))
+                    seen = (f"the store of byte(s) at addr+{[m - a for m in missing]} (value {[want_img[m] for m in missing]}) is "
+                            f"skipped: a stale byte of a previously loaded image survives" if missing else
+                            f"bytes at {wrong} get other values than the image's")
             if not ok:
                 bad = (a, z, err or seen)
                 break
@@ -1895,7 +1954,7 @@ def rule_endian(repo):
                 r.ok(m, f'{cls}.{meth}', want)
             else:
                 r.bad(m, f'{cls}.{meth}', norm(body)[:100], f"must delegate to the shared memory: {want}", f.lineno)
-    r.require_floor(50)
+    r.require_floor(229)
     return r
 
 
@@ -2293,7 +2352,7 @@ def rule_purity(repo):
                   "or the memory is built: content would depend on timing", c.up.lineno)
         else:
             r.ok(c.m, c.q, 'timing parameters ' + ', '.join(sorted(timing)) + ' unused by up_mem and the memory')
-    r.require_floor(38)
+    r.require_floor(43)
     return r
 
 
@@ -2507,6 +2566,13 @@ MUTANTS = [
     _m('cl-memory-size-halved', CL, "s.mem = MagicMemoryFL( mem_nbytes )", "s.mem = MagicMemoryFL( mem_nbytes >> 1 )", 'R-C18-pairing'),
     _m('fl-amo-aligns-address', FL, "    ret = s.read( addr, nbytes )\n    s.write( addr, nbytes, AMO_FUNS", "    addr = int(addr) & ~(nbytes-1)\n    ret = s.read( addr, nbytes )\n    s.write( addr, nbytes, AMO_FUNS", 'R-C18-amo-table'),
     _m('cl-port-loop-over-type-table', CL, "for i in range(s.nports):", "for i in range(len(req_classes)):", 'R-C18-pairing'),
+    _m('write-mem-skips-zero-bytes', FL, "    s.mem[ addr : addr + len(data) ] = data", "    mem = s.mem\n    for i, byte in enumerate( data ):\n      if not byte: continue\n      mem[ addr+i ] = byte", 'R-C18-endian'),
+    _m('write-mem-loop-misses-last-byte', FL, "    s.mem[ addr : addr + len(data) ] = data", "    for i in range( len(data) - 1 ):\n      s.mem[ addr+i ] = data[i]", 'R-C18-endian'),
+    dict(name='stream-full-width-keyed-by-class-name', file=STREAM, rule='R-C18-dispatch', edits=[
+        dict(file=STREAM, old="    s.mem = MagicMemoryFL( mem_nbytes )\n", new="    s.mem = MagicMemoryFL( mem_nbytes )\n    full_nbytes = { T.__name__ : T.data_nbits >> 3 for T in req_classes }\n"),
+        dict(file=STREAM, old="          len_ = int(req.len)\n          if len_ == 0: len_ = req_classes[i].data_nbits >> 3\n", new="          len_ = int(req.len) or full_nbytes[ req.__class__.__name__ ]\n")]),
+    dict(name='cl-full-width-of-port-zero', file=CL, rule='R-C18-dispatch', edits=[
+        dict(file=CL, old="          if len_ == 0: len_ = req_classes[i].data_nbits >> 3", new="          if len_ == 0: len_ = req_classes[0].data_nbits >> 3")]),
     # --- purity / FIFO shape
     _m('deq-pipe-no-copy', DELAY, "    s.pipeline[0] = clone_deepcopy(msg)\n\n  @non_blocking( lambda s: s.pipeline[-1] is not None )", "    s.pipeline[0] = msg\n\n  @non_blocking( lambda s: s.pipeline[-1] is not None )", 'R-C18-purity'),
     _m('deq-pipe-rotates-when-slot0-empty', DELAY, "        if s.pipeline[-1] is None:\n          s.pipeline.rotate()", "        if s.pipeline[0] is None:\n          s.pipeline.rotate()", 'R-C18-purity'),
@@ -2599,6 +2665,14 @@ EQUIV = [
     _m('cl-port-loop-over-queue-list', CL, "for i in range(s.nports):", "for i in range(len(s.req_qs)):"),
     _m('stream-memory-size-by-keyword', STREAM, "s.mem = MagicMemoryFL( mem_nbytes )", "nbytes = mem_nbytes\n    s.mem = MagicMemoryFL( mem_nbytes=nbytes )"),
     _m('fl-amo-int-address', FL, "    ret = s.read( addr, nbytes )\n    s.write( addr, nbytes, AMO_FUNS", "    addr = int(addr)\n    ret = s.read( addr, nbytes )\n    s.write( addr, nbytes, AMO_FUNS"),
+    _m('write-mem-index-loop', FL, "    s.mem[ addr : addr + len(data) ] = data", "    for i in range( len(data) ):\n      s.mem[ addr+i ] = data[i]"),
+    _m('write-mem-enumerate-loop', FL, "    s.mem[ addr : addr + len(data) ] = data", "    mem = s.mem\n    for i, byte in enumerate( data ):\n      mem[ addr+i ] = byte"),
+    dict(name='stream-full-width-list-by-port', file=STREAM, edits=[
+        dict(file=STREAM, old="    s.mem = MagicMemoryFL( mem_nbytes )\n", new="    s.mem = MagicMemoryFL( mem_nbytes )\n    full_nbytes = [ T.data_nbits >> 3 for T in req_classes ]\n"),
+        dict(file=STREAM, old="          len_ = int(req.len)\n          if len_ == 0: len_ = req_classes[i].data_nbits >> 3\n", new="          len_ = int(req.len) or full_nbytes[ i ]\n")]),
+    dict(name='stream-full-width-dict-by-port-index', file=STREAM, edits=[
+        dict(file=STREAM, old="    s.mem = MagicMemoryFL( mem_nbytes )\n", new="    s.mem = MagicMemoryFL( mem_nbytes )\n    full_nbytes = { k : T.data_nbits >> 3 for k, T in enumerate( req_classes ) }\n"),
+        dict(file=STREAM, old="          len_ = int(req.len)\n          if len_ == 0: len_ = req_classes[i].data_nbits >> 3\n", new="          len_ = int(req.len) or full_nbytes[ i ]\n")]),
     _m('stall-rdy-conjuncts-swapped', STALL, "lambda s: s.stall_rgen.random() > s.stall_prob and s.send.rdy()", "lambda s: s.send.rdy() and s.stall_rgen.random() > s.stall_prob"),
 ]
 
